@@ -34,7 +34,7 @@ type c09Item struct {
 
 var c09Jobs = []c09Item{
 	{name: "plain", text: "  plain:\n    runs-on: ubuntu-latest\n    steps:\n      - run: echo\n"},
-	{name: "matrixjob", text: "  matrixjob:\n    runs-on: ubuntu-latest\n    strategy:\n      matrix:\n        os: [a, b]\n        z: [[1, 2]]\n    steps:\n      - run: echo ${{ matrix.os }} ${{ matrix.nope }} ${{ matrix.z.* }}\n      - run: echo ${{ matrix.z.foo }}\n"},
+	{name: "matrixjob", text: "  matrixjob:\n    runs-on: ubuntu-latest\n    strategy:\n      matrix:\n        os: [a, b]\n        z: [[1, 2]]\n        include:\n          - pkgs: ${{ fromJSON('[{\"meta\":{\"name\":\"a\"}}]').* }}\n    steps:\n      - run: echo ${{ matrix.os }} ${{ matrix.nope }} ${{ matrix.z.* }}\n      - run: echo ${{ matrix.z.foo }}\n"},
 	{name: "nomatrix", text: "  nomatrix:\n    runs-on: ubuntu-latest\n    steps:\n      - run: echo ${{ matrix.os }} ${{ matrix.z.foo }} ${{ steps.s1.outputs.x }} ${{ needs.plain.result }}\n"},
 	{name: "pyshell", text: "  pyshell:\n    runs-on: ubuntu-latest\n    defaults:\n      run:\n        shell: python\n    steps:\n      - run: print(1)\n      - run: echo\n        shell: nosuchshell\n"},
 	{name: "winrunner", text: "  winrunner:\n    runs-on: windows-latest\n    steps:\n      - run: echo\n        shell: sh\n      - run: echo\n        shell: cmd\n"},
@@ -72,6 +72,9 @@ var c09Steps = []c09Item{
 	{name: "usecache", text: "      - run: echo ${{ steps.c.outputs.cache-hit }} ${{ steps.c.outputs.nope }}\n"},
 	{name: "badinput", text: "      - uses: actions/checkout@v4\n        with:\n          bogus: 1\n"},
 	{name: "filter", text: "      - run: echo ${{ matrix.z.* }} ${{ toJSON(steps.*.outputs) }}\n"},
+	// a matrix value that is itself the result of an object filter (a typed array shared by every expression of the job)
+	{name: "pkgname", text: "      - run: echo ${{ matrix.pkgs.meta.name }}\n"},
+	{name: "pkgtypo", text: "      - run: echo ${{ matrix.pkgs.meta.nam }} ${{ matrix.pkgs.meta }}\n"},
 	{name: "afterfilter", text: "      - run: echo ${{ matrix.z.foo }}\n"},
 	{name: "shellpy", text: "      - run: print(1)\n        shell: python\n"},
 	{name: "shellbad", text: "      - run: echo\n        shell: nosuchshell\n"},
@@ -85,6 +88,7 @@ var c09Exprs = []string{
 	"matrix.z.*", "matrix.z.foo", "matrix.z[0]", "matrix.os", "matrix.*", "matrix.os.*", "toJSON(matrix.z.*)",
 	"steps.*.outputs", "steps.a.outputs.x", "steps.a.*", "github.event.*.body", "github.event.pull_request.head.*", "github.event.nope",
 	"fromJSON('[1]').*", "env.*", "needs.*.result", "inputs.x", "contains(matrix.z.*, 1)", "format('{0}', matrix.z)", "nosuch", "a +",
+	"matrix.pkgs.meta.name", "matrix.pkgs.meta.nam", "matrix.pkgs.meta", "matrix.pkgs.*.meta",
 }
 
 var c09LineRe = regexp.MustCompile(`line:(\d+),col:(\d+)`)
@@ -222,7 +226,7 @@ func TestVerifC09(t *testing.T) {
 	r.Extra["assumptions"] = []string{"dependencies of a step are the earlier steps that carry an id (verbatim), of a job its needed jobs; everything else counts as unrelated", "line numbers echoed in messages are compared relative to the item"}
 	families := []*c09Family{
 		{name: "jobs", header: "on: pull_request\njobs:\n", items: c09Jobs},
-		{name: "steps", header: "on: pull_request\njobs:\n  j:\n    runs-on: ubuntu-latest\n    strategy:\n      matrix:\n        os: [a]\n        z: [[1, 2]]\n    steps:\n", items: c09Steps},
+		{name: "steps", header: "on: pull_request\njobs:\n  j:\n    runs-on: ubuntu-latest\n    strategy:\n      matrix:\n        os: [a]\n        z: [[1, 2]]\n        include:\n          - pkgs: ${{ fromJSON('[{\"meta\":{\"name\":\"a\"}}]').* }}\n    steps:\n", items: c09Steps},
 	}
 	// jobs under a workflow_call header: the inputs / needs object types are shared by the whole
 	// file; a job that merges them into its matrix must not change what later jobs see
@@ -265,7 +269,7 @@ func TestVerifC09(t *testing.T) {
 		families = append(families, &c09Family{name: "default-shell-" + sh, header: "on: push\ndefaults:\n  run:\n    shell: " + sh + "\njobs:\n", items: shellItems})
 	}
 	// expression family: each expression is its own step (separate strings)
-	ex := &c09Family{name: "exprs", header: "on: pull_request\njobs:\n  j:\n    runs-on: ubuntu-latest\n    strategy:\n      matrix:\n        os: [a]\n        z: [[1, 2]]\n    steps:\n      - id: a\n        run: echo\n"}
+	ex := &c09Family{name: "exprs", header: "on: pull_request\njobs:\n  j:\n    runs-on: ubuntu-latest\n    strategy:\n      matrix:\n        os: [a]\n        z: [[1, 2]]\n        include:\n          - pkgs: ${{ fromJSON('[{\"meta\":{\"name\":\"a\"}}]').* }}\n    steps:\n      - id: a\n        run: echo\n"}
 	for i, e := range c09Exprs {
 		ex.items = append(ex.items, c09Item{name: fmt.Sprintf("e%d:%s", i, e), text: "      - run: echo\n        env:\n          V: ${{ " + e + " }}\n"})
 	}
